@@ -207,8 +207,33 @@ def coq_build(generators=(), timeout=3000):
                 f = m.group(1)[:-1]
                 if f not in res["failed"]:
                     res["failed"].append(f)
-        # extraction driver
+        # extraction: only the models that compiled (a model broken by the tree under check must not take the
+        # drivers of the other properties with it)
+        sys.path.insert(0, os.path.join(VERIF, "tools"))
+        import mkproject
+        _vf, exts = mkproject.scan()
+        good = []
+        for m, n in exts:
+            vf = m.replace(".", "/") + ".v"
+            clo = dep_closure(vf) or set()
+            vo = os.path.join(COQ, vf + "o")
+            if os.path.exists(vo) and vf not in res["failed"] and not any(f in clo for f in res["failed"]) \
+                    and os.path.getmtime(vo) >= os.path.getmtime(os.path.join(COQ, vf)):
+                good.append((m, n))
+        res["extracted"] = [n for _m, n in good]
+        res["not_extracted"] = [n for _m, n in exts if (_m, n) not in good]
+        changed = mkproject.write_extract(good)
         ml = os.path.join(COQ, "models.ml")
+        ev = os.path.join(COQ, "extract", "Extract.v")
+        vos = [os.path.join(COQ, m.replace(".", "/") + ".vo") for m, _n in good]
+        if good and (changed or not os.path.exists(ml) or os.path.getmtime(ml) < os.path.getmtime(ev)
+                     or any(os.path.getmtime(v) > os.path.getmtime(ml) for v in vos)):
+            rc, out, err, _ = _run(["coqc", "-Q", ".", "AQ", "-w", "-extraction-opaque-accessed,-extraction-reserved-identifier",
+                                    "extract/Extract.v"], cwd=COQ, timeout=1200)
+            if rc != 0:
+                res["ok"] = False
+                res["failed"].append("extract/Extract.v")
+                res["log"] += "\nEXTRACTION FAILED\n" + err[-3000:]
         bdir = os.path.join(COQ, "extract", "_build")
         os.makedirs(bdir, exist_ok=True)
         srcs = [ml, os.path.join(COQ, "models.mli"), os.path.join(COQ, "extract", "table.ml"),
